@@ -8,7 +8,8 @@
     Hypotheses, all visible in the statements:
     - [params_ok P]: asset limits are not negative (types/params.go validates this);
     - [escrow_empty b]: the module account holds nothing at genesis;
-    - [wf_op]: the signer of a create message is not a module account (module accounts cannot sign).
+    - [wf_op]: the signer of a create message is not a module account (module accounts cannot sign), and
+      the history contains no parameter change ([SetParams]; see Props/C04.v for what survives one).
       (A recipient equal to a blocked module account or - since "fix: htlc CreateHTLC rejects a
       recipient equal to the htlc module account" - to the htlc account itself is refused by the code,
       and by the model; no hypothesis on recipients is needed any more.)
